@@ -20,6 +20,17 @@ CLAIMED = {
         "limited to the rational sub-family",
         "DESIGN.md 3 C01",
     ),
+    "C03": (
+        "spec/GridOps.tla, spec/MC_GridOps.tla, spec/Trace_GridOps.tla",
+        "TLA+ state machine of derived-grid operations (constructive definition + world-geometry post-condition per action); "
+        "TLC checks all chains up to the depth bound; every chain is replayed on real Grid objects; random recorded call chains "
+        "(incl. pyramid, accepted by post-condition) are validated by Trace_GridOps with the hidden float size inferred by the spec",
+        "exhaustive over the op lattice for chains up to length 2 (3 in thorough by simulation) from oriented anisotropic base grids "
+        "incl. rounding-sensitive ones; an exception on an enabled action is a violation",
+        "trusted: TLC, GridOps transcription of the documented semantics (cross-checked by its own post-conditions), projection "
+        "(size, spacing, center, origin, direction, align_corners, cube_extent), float32 tolerance policy",
+        "DESIGN.md 3 C03",
+    ),
 }
 
 PENDING_REASON = "check not built yet in this revision (planned, see DESIGN.md section 9); not claimed until it runs clean"
